@@ -182,6 +182,7 @@ let ops_for (f : fx) ~(m : string) ~(cli : bool) ~(cli_reps : int) =
   rep ~need:3 "search_in_dump" ~tag:"search_in_dump_max3" (hx "alpha|password|token|secret|beta|gamma|delta|omega|note" ^ "|3|0");
   rep ~need:5 "search_in_dump" ~tag:"search_in_dump_max5_row" (hx "alpha|password|token|secret|beta|gamma|delta|omega|note" ^ "|5|1");
   rep ~need:6 "search_in_dump" ~tag:"search_in_dump_all" (hx "a|e|o" ^ "|0|1");
+  rep ~need:1 "search_history" ~tag:"search_history_case_flag" (hx "NOTE|Alpha|BETA|Password|Token|SECRET" ^ "|0|0");
   rep ~need:1 "search" ~tag:"search_max1" (hx "note|alpha|beta|password" ^ "|1|0");
   rep ~need:4 "search" ~tag:"search_max4" (hx "note|alpha|beta|password" ^ "|4|1");
   rep ~reps:3 ~need:0 "scan_secrets" "-";
